@@ -695,6 +695,10 @@ class Monitor:
                 what = "observation_at_unselected_level"
             if kind == "complete" and str(tid_ev) == tid:
                 what += ":added_on_completion"
+                if not e:
+                    # C14-F3 needs an earlier searcher update of the trial (largest_update_resource is set at its
+                    # first selected level): a final observation of a trial with no selected level is not that finding
+                    what += ":trial_has_no_selected_level"
             if ("extra", tid, lv) in self.reported:
                 continue
             self.reported.add(("extra", tid, lv))
